@@ -4,6 +4,7 @@ package main
 
 import (
 	"fmt"
+	"go/types"
 	"strings"
 
 	"golang.org/x/tools/go/ssa"
@@ -126,25 +127,71 @@ func actionStartFlags(p *Program) []string {
 	}
 	seen := map[string]bool{}
 	var out []string
-	for _, b := range ea.Blocks {
-		for _, in := range b.Instrs {
-			st, ok := in.(*ssa.Store)
-			if !ok {
-				continue
-			}
-			fa, ok := st.Addr.(*ssa.FieldAddr)
-			if !ok || !isNamed(fa.X.Type(), pkgTemplate, "attr") {
-				continue
-			}
-			if bv, ok := constBool(st.Val); ok && bv {
-				if n := fieldName(fa.X.Type(), fa.Field); !seen[n] {
-					seen[n] = true
-					out = append(out, n)
+	for _, f := range actionTailFuncs(p) {
+		for _, b := range f.Blocks {
+			for _, in := range b.Instrs {
+				st, ok := in.(*ssa.Store)
+				if !ok {
+					continue
+				}
+				fa, ok := st.Addr.(*ssa.FieldAddr)
+				if !ok || !isNamed(fa.X.Type(), pkgTemplate, "attr") {
+					continue
+				}
+				if bv, ok := constBool(st.Val); ok && bv {
+					if n := fieldName(fa.X.Type(), fa.Field); !seen[n] {
+						seen[n] = true
+						out = append(out, n)
+					}
 				}
 			}
 		}
 	}
 	return out
+}
+
+// actionTailFuncs: escapeAction and the functions of the package it hands a context to (the bookkeeping after an
+// action may live in a helper such as c.afterAction()).
+func actionTailFuncs(p *Program) []*ssa.Function {
+	ea := p.Func("template", "(*escaper).escapeAction")
+	if ea == nil {
+		return nil
+	}
+	fns := []*ssa.Function{ea}
+	for i := 0; i < len(fns) && len(fns) < 8; i++ {
+		for _, b := range fns[i].Blocks {
+			for _, in := range b.Instrs {
+				c, ok := in.(*ssa.Call)
+				if !ok {
+					continue
+				}
+				g := staticCallee(c.Common())
+				if g == nil || g.Pkg != ea.Pkg || g.Blocks == nil {
+					continue
+				}
+				takes := false
+				for _, a := range c.Common().Args {
+					t := a.Type()
+					if pt, ok := t.Underlying().(*types.Pointer); ok {
+						t = pt.Elem()
+					}
+					if isNamed(t, pkgTemplate, "context") || isNamed(t, pkgTemplate, "attr") {
+						takes = true
+					}
+				}
+				dup := false
+				for _, h := range fns {
+					if h == g {
+						dup = true
+					}
+				}
+				if takes && !dup && g.Signature.Results().Len() <= 1 && (g.Signature.Results().Len() == 0 || isNamed(g.Signature.Results().At(0).Type(), pkgTemplate, "context") || isNamed(g.Signature.Results().At(0).Type(), pkgTemplate, "attr")) {
+					fns = append(fns, g)
+				}
+			}
+		}
+	}
+	return fns
 }
 
 // checkTagEndTablesSeeAllNames (C04): when a tag ends, the tag function decides from name tables what the text
